@@ -838,7 +838,7 @@ def x_instr_dump(co, opc, max_code=None, dup_lines=False):
                     av = ins.argval
                     if hasattr(av, "co_code"):
                         argval = ["C", {"co_name": xcanon(av.co_name, py2file),
-                                        "co_firstlineno": xcanon(av.co_firstlineno, py2file)}]
+                                        "co_firstlineno": xcanon(getattr(av, "co_firstlineno", None), py2file)}]
                     else:
                         argval = xcanon(av, py2file)
                 elif op in opc.NAME_OPS:
@@ -978,6 +978,11 @@ def op_x_listing(req):
             f.write(unhx(req["data"]))
     x.disasm.disassemble_file(path, out, req["fmt"])
     return {"text": out.getvalue()}
+
+
+def op_x_sysinfo2magic(req):
+    x = xd()
+    return {"magic": hx(x.magics.sysinfo2magic()), "python_magic_int": x.magics.PYTHON_MAGIC_INT}
 
 
 def exec_objects(req, use_xdis):
